@@ -166,6 +166,13 @@ pub fn gen_query(rng: &mut StdRng, profile: &str) -> J {
             r
         }
         _ => {
+            if rng.random_bool(0.4) {
+                // several keys: k (often missing, with ties) then the unique u; both are returned columns
+                q["order"] = json!([{"e": {"op": "prop", "var": "n0", "key": "k"}, "desc": rng.random_bool(0.5)}, {"e": {"op": "prop", "var": "n0", "key": "u"}, "desc": rng.random_bool(0.6)}]);
+                q["okcols"] = json!([2, 3]);
+                q["ret"] = json!([{"e": {"op": "id", "var": "n0"}}, {"e": {"op": "prop", "var": "n0", "key": "k"}}, {"e": {"op": "prop", "var": "n0", "key": "u"}}]);
+                return q;
+            }
             // ordered window over a single-node pattern; u is unique and never missing
             q["order"] = json!([{"e": {"op": "prop", "var": "n0", "key": "u"}, "desc": rng.random_bool(0.5)}]);
             q["skip"] = json!([0, 0, 1, 2, 7][rng.random_range(0..5)]);
@@ -236,7 +243,11 @@ pub fn render(q: &J, lang: &str) -> Option<String> {
         Some(match it.get("agg").and_then(|a| a.as_str()) { Some(a) => format!("{a}({e})"), None => e })
     }).collect();
     s += &items?.join(", ");
-    if let Some(o) = q["order"].as_array()?.first() { s += &format!(" ORDER BY {}{}", r_expr(&o["e"])?, if o["desc"] == true { " DESC" } else { "" }); }
+    let ord = q["order"].as_array()?;
+    if !ord.is_empty() {
+        let ks: Option<Vec<String>> = ord.iter().map(|o| Some(format!("{}{}", r_expr(&o["e"])?, if o["desc"] == true { " DESC" } else { "" }))).collect();
+        s += &format!(" ORDER BY {}", ks?.join(", "));
+    }
     if q["skip"].as_i64()? > 0 { s += &format!(" SKIP {}", q["skip"]); }
     if q["limit"].as_i64()? >= 0 { s += &format!(" LIMIT {}", q["limit"]); }
     Some(s)
@@ -402,7 +413,7 @@ fn session_rows(sess: &grafeo_engine::Session, lang: &str, text: &str) -> Result
 /// Applies one random mutation through the API and returns the updated graph JSON.
 fn mutate(rng: &mut StdRng, g: &mut Graph) {
     let nodes = g.json["nodes"].as_array().cloned().unwrap_or_default();
-    let roll = [0, 1, 1, 1, 2, 3][rng.random_range(0..6)];
+    let roll = [0, 1, 1, 1, 2, 3, 4, 4, 5][rng.random_range(0..9)];
     if nodes.is_empty() || roll == 0 {
         let i = nodes.len() as i64;
         let k = rng.random_range(0..4);
@@ -418,6 +429,23 @@ fn mutate(rng: &mut StdRng, g: &mut Graph) {
         let props = g.json["nodes"][idx]["props"].as_array_mut().unwrap();
         props.retain(|p| p[0] != "k");
         props.push(json!(["k", {"t": "int", "v": k}]));
+    } else if roll == 4 || roll == 5 {
+        // an explicit NULL is written to k and then overwritten with a value: on one node, or on every node (the column
+        // statistics must follow both steps).  No node keeps the explicit NULL, so that what a query reads is an
+        // integer or a missing property, as in the rest of the core.
+        let targets: Vec<usize> = if roll == 4 { vec![rng.random_range(0..nodes.len())] } else { (0..nodes.len()).collect() };
+        for idx in &targets {
+            let id = grafeo_common::types::NodeId::new(nodes[*idx]["id"].as_u64().unwrap());
+            g.db.set_node_property(id, "k", Value::Null);
+        }
+        for idx in &targets {
+            let id = grafeo_common::types::NodeId::new(nodes[*idx]["id"].as_u64().unwrap());
+            let k = rng.random_range(0..4);
+            g.db.set_node_property(id, "k", Value::Int64(k));
+            let props = g.json["nodes"][*idx]["props"].as_array_mut().unwrap();
+            props.retain(|p| p[0] != "k");
+            props.push(json!(["k", {"t": "int", "v": k}]));
+        }
     } else if roll == 2 {
         let edges = g.json["edges"].as_array().cloned().unwrap_or_default();
         if !edges.is_empty() {
